@@ -185,7 +185,7 @@ func init() {
 		ID:    "C02",
 		Title: "a single supported comparator before a valid version parses and contains v iff Compare(v, bound) satisfies it; AND separators give the intersection, OR separators the union",
 		Pkgs:  []string{zzhPkg},
-		Rule:  "C02Cmp1: ecosystem x comparator x bound template x probe template; C02And2 / C02Or2: ecosystem x separator x comparator pair x templates",
+		Rule:  "C02Cmp1: ecosystem x comparator x bound template x probe template; C02And2 / C02Or2: ecosystem x separator x comparator pair x templates; C02Three: three comparators under every pair of separators (OR of AND groups)",
 		Gen: func(tier string) []*Config {
 			var out []*Config
 			for _, eco := range ecosystems {
@@ -202,7 +202,18 @@ func init() {
 				ps := thin(versionTemplates(eco, "m"), np)
 				// the free-run probe (two characters over the whole version alphabet) and the must-have
 				// spellings are always among the probes
-				for _, extra := range append([]string{freeRunOf(eco)}, mustTemplates(eco)...) {
+				// ... and a version whose last numeric component has six digits (beyond 16 bits)
+				bigComp := ""
+				if ms := mustTemplates(eco); len(ms) > 0 {
+					last := ms[len(ms)-1]
+					if eco == "golang" {
+						last = "v{d}.{d}.{d}"
+					}
+					if i := strings.LastIndex(last, "{d}"); i >= 0 {
+						bigComp = last[:i] + "{D}{d}{d}{d}{d}{d}" + last[i+3:]
+					}
+				}
+				for _, extra := range append([]string{freeRunOf(eco), bigComp}, mustTemplates(eco)...) {
 					if extra != "" && !has(ps, extra) {
 						ps = append(ps, extra)
 					}
@@ -234,6 +245,46 @@ func init() {
 								for _, p := range p2 {
 									out = append(out, &Config{ID: fmt.Sprintf("C02/and2/%s/%q/%s %s/%s|%s|%s", eco, sep, opp[0], opp[1], x, y, p), Pkg: zzhPkg, Func: "C02And2",
 										Args: []ArgSpec{ArgStr(eco), ArgStr(opp[0]), ArgTmpl(x), ArgStr(sep), ArgStr(opp[1]), ArgTmpl(y), ArgTmpl(p)}})
+								}
+							}
+						}
+					}
+				}
+				// three comparators: all AND, all OR and the two mixed forms, one bound template, two probes
+				{
+					type sepK struct {
+						s  string
+						or bool
+					}
+					var seps []sepK
+					for _, s := range spec.ands {
+						seps = append(seps, sepK{s, false})
+					}
+					for _, s := range spec.ors {
+						seps = append(seps, sepK{s, true})
+					}
+					triples := [][3]string{{">=", "<", ">="}, {"=", "=", "="}, {"<", ">=", "<"}}
+					if eco == "pypi" {
+						triples = [][3]string{{">=", "<", ">="}, {"==", "==", "=="}, {"<", ">=", "<"}}
+					}
+					if has(spec.ops, "!=") {
+						triples = append(triples, [3]string{">=", "!=", "!="})
+					}
+					if len(b2) > 0 {
+						bt := b2[0]
+						for _, s1 := range seps {
+							for _, s2 := range seps {
+								if !s1.or && !s2.or && s1.s != s2.s {
+									continue // two different AND separators in one list: not a documented form
+								}
+								if s1.or && s2.or && s1.s != s2.s {
+									continue
+								}
+								for _, tr := range triples {
+									for _, p := range thin(p2, 2) {
+										out = append(out, &Config{ID: fmt.Sprintf("C02/three/%s/%q%q/%s %s %s/%s|%s", eco, s1.s, s2.s, tr[0], tr[1], tr[2], bt, p), Pkg: zzhPkg, Func: "C02Three",
+											Args: []ArgSpec{ArgStr(eco), ArgStr(tr[0]), ArgTmpl(bt), ArgStr(s1.s), ArgStr(tr[1]), ArgTmpl(bt), ArgStr(s2.s), ArgStr(tr[2]), ArgTmpl(bt), ArgTmpl(p), ArgBool(s1.or), ArgBool(s2.or)}})
+									}
 								}
 							}
 						}
